@@ -731,6 +731,74 @@ edit("zk-tls-no-tls-section", "start-time", False, ["notify"],
      "core/internal/helpers/zookeeper.go:65-69; core/internal/zookeeper/coordinator.go:85-89",
      "no tls section at all; zookeeper.tls names t1: the (empty) CA file cannot be read when the coordinator starts")
 
+# integer options that size something (channels, slices, goroutine counts, ticker periods, time.Duration products): -1, 0, 1, large
+# inv: a non-positive SIZE is a violation of the documented meaning of the option (a number of workers, a period in seconds);
+# where Burrow does not check the value the edit is marked "hazard": accepted today (asserted, so that a change is seen),
+# listed as an observation in findings/C19.json when the accepted value crashes the process after start-up.
+_ST = [("s", "storage.s1.class-name", "inmemory")]
+_ALL = ["core", "notify", "kafka"]
+for _v, _inv, _what in ((-1, True, "negative"), (0, True, "zero"), (1, False, "one"), (500, False, "large")):
+    edit("storage-workers-%s" % _what, "size" if _inv else "preserving", _inv, _ALL, _ST + [("i", "storage.s1.workers", _v)],
+         "core/internal/storage/inmemory.go:129,133-136,190-196", "storage workers = %d" % _v)
+for _v, _what in ((0, "zero"), (1, "one"), (10000, "large")):
+    edit("storage-queue-depth-%s" % _what, "preserving", False, _ALL, _ST + [("i", "storage.s1.queue-depth", _v)],
+         "core/internal/storage/inmemory.go:131,138", "storage queue-depth = %d (an unbuffered channel for 0)" % _v)
+edit("storage-workers-one-queue-depth-negative", "size", True, _ALL,
+     _ST + [("i", "storage.s1.workers", 1), ("i", "storage.s1.queue-depth", -5)],
+     "core/internal/storage/inmemory.go:138", "one worker and a negative queue-depth")
+for _v, _what in ((-1, "negative"), (0, "zero")):
+    edit("storage-intervals-%s" % _what, "hazard", False, _ALL, _ST + [("i", "storage.s1.intervals", _v)],
+         "core/internal/storage/inmemory.go:127,293,364", "storage intervals = %d: accepted by Configure and Start (ring.New(n <= 0) is nil: "
+         "the first offset commit panics a worker goroutine after start-up)" % _v)
+for _v, _what in ((1, "one"), (100000, "large")):
+    edit("storage-intervals-%s" % _what, "preserving", False, _ALL, _ST + [("i", "storage.s1.intervals", _v)],
+         "core/internal/storage/inmemory.go:127", "storage intervals = %d" % _v)
+edit("storage-expire-group-negative", "preserving", False, _ALL, _ST + [("i", "storage.s1.expire-group", -1), ("i", "storage.s1.min-distance", -1)],
+     "core/internal/storage/inmemory.go:128,130", "negative expire-group and min-distance: arithmetic only")
+for _v, _what in ((0, "zero"), (1, "one"), (1000000000, "large")):
+    edit("evaluator-expire-%s" % _what, "preserving", False, _ALL, [("s", "evaluator.e1.class-name", "caching"), ("i", "evaluator.e1.expire-cache", _v)],
+         "core/internal/evaluator/caching.go:65-80", "evaluator expire-cache = %d" % _v)
+for _v, _what in ((-1, "negative"), (0, "zero"), (1, "one"), (1000000000, "large")):
+    edit("http-timeout-%s" % _what, "preserving", False, _ALL, [("s", "httpserver.h1.address", "127.0.0.1:0"), ("i", "httpserver.h1.timeout", _v)],
+         "core/internal/httpserver/coordinator.go:83-88", "listener timeout = %d (a time.Duration product; non-positive = no timeout in net/http)" % _v)
+for _v, _what in ((-1, "negative"), (0, "zero")):
+    edit("notifier-interval-%s" % _what, "hazard", False, ["notify"], [("i", "notifier.n3.interval", _v)],
+         "core/internal/notifier/coordinator.go:174,233-236,526", "notifier interval = %d: accepted by Configure and Start (rand.Int63n(minInterval*1000) "
+         "panics in processConsumerList on the first group refresh, 60 s after start-up)" % _v)
+for _v, _what in ((1, "one"), (1000000000, "large")):
+    edit("notifier-interval-%s" % _what, "preserving", False, ["notify"], [("i", "notifier.n3.interval", _v)],
+         "core/internal/notifier/coordinator.go:174,233-236", "notifier interval = %d" % _v)
+edit("notifier-int-options-negative", "preserving", False, ["notify"],
+     [("i", "notifier.n1.threshold", -1), ("i", "notifier.n1.send-interval", -1), ("i", "notifier.n1.timeout", -1), ("i", "notifier.n1.keepalive", -1)],
+     "core/internal/notifier/coordinator.go:175-176,560,571; core/internal/notifier/http.go:88-96",
+     "http notifier threshold / send-interval / timeout / keepalive = -1: comparisons and time.Duration products only")
+edit("notifier-int-options-zero", "preserving", False, ["notify"],
+     [("i", "notifier.n1.threshold", 0), ("i", "notifier.n1.send-interval", 0), ("i", "notifier.n1.timeout", 0), ("i", "notifier.n1.keepalive", 0)],
+     "core/internal/notifier/coordinator.go:175-176,560,571; core/internal/notifier/http.go:88-96", "the same options = 0")
+for _v, _what in ((-1, "negative"), (0, "zero"), (70000, "large")):
+    edit("email-port-%s" % _what, "preserving", False, ["notify"], [("i", "notifier.n2.port", _v)],
+         "core/internal/notifier/email.go:65-73", "email port = %d: any integer passes the host:port validation" % _v)
+for _k, _site in (("offset-refresh", "83-86"), ("topic-refresh", "83-86")):
+    for _v, _inv, _what in ((-1, True, "negative"), (0, True, "zero"), (1, False, "one"), (1000000000, False, "large")):
+        edit("cluster-%s-%s" % (_k, _what), "size" if _inv else "preserving", _inv, ["kafka"], [("i", "cluster.c1." + _k, _v)],
+             "core/internal/cluster/kafka_cluster.go:76-%s,104-105" % _site[3:], "cluster %s = %d (a ticker period)" % (_k, _v))
+for _v, _inv, _what in ((-1, True, "negative"), (0, False, "zero"), (300, False, "set")):
+    edit("cluster-reaper-refresh-%s" % _what, "size" if _inv else "preserving", _inv, ["kafka"], [("i", "cluster.c1.groups-reaper-refresh", _v)],
+         "core/internal/cluster/kafka_cluster.go:78,87-89,107-118", "cluster groups-reaper-refresh = %d (0 = reaper off)" % _v)
+edit("cluster-second-refresh-zero", "size", True, ["kafka"],
+     [("s", "cluster.c2.class-name", "kafka"), ("l", "cluster.c2.servers", ["kafka_broker:9092"]), ("i", "cluster.c2.topic-refresh", 0)],
+     "core/internal/cluster/kafka_cluster.go:83-86", "a second cluster with topic-refresh = 0 (the first one is fine)")
+for _v, _what in ((-1, "negative"), (0, "zero"), (1000000, "large")):
+    edit("zk-timeout-%s" % _what, "preserving", False, ["notify"], [("i", "zookeeper.timeout", _v)],
+         "core/internal/zookeeper/coordinator.go:59,85", "zookeeper timeout = %d (a time.Duration product handed to the client library)" % _v)
+    edit("consumer-zk-timeout-%s" % _what, "preserving", False, ["kafka"], [("i", "consumer.z1.zookeeper-timeout", _v)],
+         "core/internal/consumer/kafka_zk_client.go:83-84", "kafka_zk consumer zookeeper-timeout = %d" % _v)
+for _v, _what in ((-1, "negative"), (0, "zero")):
+    edit("profile-timeouts-%s" % _what, "preserving", False, ["kafka"],
+         [("i", "client-profile.p1.dial-timeout", _v), ("i", "client-profile.p1.read-timeout", _v)],
+         "core/internal/helpers/sarama.go:138-145", "client profile dial-timeout / read-timeout = %d: sarama refuses the client configuration when the "
+         "module STARTS (an error, like unreachable brokers)" % _v)
+
 EDITS = {e["id"]: e for e in E}
 assert len(EDITS) == len(E)
 
